@@ -205,10 +205,12 @@ class WorldA:
         c.opt_spec = op.get("opt")
         return self._compile_circ(c, op)
 
-    def _compile_circ(self, c: Circ, op: dict[str, Any]) -> dict[str, Any]:
+    def _compile_circ(self, c: Circ, op: dict[str, Any], precompiled: Any = None) -> dict[str, Any]:
         """Compile c.sc in the long-lived context (with optional fault + retry) and
-        decide whether it is tracked (birth exclusion)."""
-        fault = op.get("fault")
+        decide whether it is tracked (birth exclusion).  ``precompiled``: the object the
+        module-level ``cirkit.pipeline.compile`` returned inside ``with ctx`` - it *is* the
+        derived circuit the user holds, whatever context it ended up in."""
+        fault = op.get("fault") if precompiled is None else None
         info: dict[str, Any] = {}
         if fault is not None:
             seed_rng(op["seed"])
@@ -230,9 +232,12 @@ class WorldA:
                 return {"status": "excluded"}
         seed_rng(op["seed"] + 1)
         try:
-            with FAULT_SEAM.arm(-1):
-                cc = self.ctx.compile(c.sc)
-            self.tr.count("crossings", FAULT_SEAM.last_count)
+            if precompiled is not None:
+                cc = precompiled
+            else:
+                with FAULT_SEAM.arm(-1):
+                    cc = self.ctx.compile(c.sc)
+                self.tr.count("crossings", FAULT_SEAM.last_count)
         except self.refusals as e:
             c.excluded = f"refusal:{type(e).__name__}"
             self.tr.ev("excluded", c.name, c.excluded, str(e)[:100])
@@ -369,6 +374,7 @@ class WorldA:
         self.order.append(name)
         opr = spec["opr"]
         via = spec.get("via", "symbolic")
+        precompiled: Any = None
         scs = [s.sc for s in srcs]  # type: ignore[union-attr]
         ccs = [s.cc for s in srcs]  # type: ignore[union-attr]
         if opr == "multiply" and len(scs[0].layers) * len(scs[1].layers) > MAX_LAYERS:
@@ -395,6 +401,18 @@ class WorldA:
                 c.sc = self.ctx.get_symbolic_circuit(cc)
             else:
                 with self.ctx:
+                    if via == "module" and spec.get("abort_inner"):
+                        # a nested block of another context, left by an exception, just before
+                        # the derivation: the long-lived context must be the active one again
+                        from cirkit.pipeline import PipelineContext
+
+                        try:
+                            with PipelineContext(backend="torch", semiring=self.semiring,
+                                                 fold=not self.fold, optimize=self.optimize):
+                                raise SimFault("exception escaping a nested context block")
+                        except SimFault:
+                            self.tr.count("fault:fired:nested-block-exit")
+                            self.tr.count("fault:fired")
                     if opr == "integrate":
                         sc_scope = None if spec.get("scope") is None else Scope(spec["scope"])
                         c.sc = SF.integrate(scs[0], scope=sc_scope)
@@ -411,6 +429,11 @@ class WorldA:
                         c.sc = SF.concatenate(scs)
                     else:
                         raise HarnessError(f"unknown operator {opr}")
+                    if via == "module":
+                        import cirkit.pipeline as _pl
+
+                        seed_rng(op["seed"] + 1)
+                        precompiled = _pl.compile(c.sc)
         except HarnessError:
             raise
         except (*self.refusals, ValueError) as e:
@@ -425,7 +448,7 @@ class WorldA:
             return {"status": "excluded"}
         c.tparams = oracles.symbolic_tensor_parameters(c.sc)
         self.tr.count(f"derive:{opr}:{via}")
-        info = self._compile_circ(c, op)
+        info = self._compile_circ(c, op, precompiled=precompiled)
         if c.alive:
             c.rel_ok = self._relation_holds(c, rel=self.REL_BIRTH, nontrivial=True) is True
             self.tr.count("rel:tracked" if c.rel_ok else "rel:untracked")
